@@ -30,6 +30,7 @@ AmpPaths == {"valid", "validPadded", "validSlashes", "badBase64", "missingVersio
              "pollBadVersion", "pollInvalidNAT", "pollUnlistedFingerprint", "noPrefix"}
 NatHeaders == {"absent", "unknown", "restricted", "unrestricted", "empty", "bogus"}
 MetricsFiles == {"none", "present", "missing"}
+Framings == {"length", "chunked"}   \* Content-Length known, or Transfer-Encoding: chunked / HTTP/2 without a length (ContentLength = -1)
 
 Bodies(e) == CASE e = "proxy" -> ProxyBodies [] e = "client" -> ClientBodies [] e = "answer" -> AnswerBodies
                [] e = "amp" -> AmpPaths [] OTHER -> {"empty", "random"}
@@ -38,14 +39,15 @@ VARIABLE req
 vars == <<req>>
 
 Requests ==
-  {[ep |-> e, method |-> m, body |-> b, nat |-> h, mfile |-> f] :
+  {[ep |-> e, method |-> m, body |-> b, nat |-> h, mfile |-> f, framing |-> fr] :
       e \in Endpoints, m \in Methods, b \in ProxyBodies \cup ClientBodies \cup AnswerBodies \cup AmpPaths \cup {"empty", "random"},
-      h \in NatHeaders, f \in MetricsFiles}
+      h \in NatHeaders, f \in MetricsFiles, fr \in Framings}
 
 Relevant(r) ==
   /\ r.body \in Bodies(r.ep)
   /\ (r.nat # "absent" => r.ep = "client")                   \* the header only matters to /client
   /\ (r.mfile # "none" => r.ep = "metrics")
+  /\ (r.framing = "chunked" => (r.ep \in {"proxy", "client", "answer"} /\ r.method \in {"POST", "PUT"} /\ r.nat \in {"absent", "bogus"}))
   /\ (r.ep = "metrics" => r.body = "empty")
   /\ (r.ep \in {"debug", "prometheus", "robots"} => r.body = "empty" \/ r.method = "POST")
 
